@@ -73,7 +73,13 @@ def do_solve(req):
     seen = set()
     out['exact_duplicates'] = 0
 
+    nested_done = [False]
+
     def on_model(m, step):
+        if req.get('nested') and not nested_done[0] and step >= req.get('nested_at', 0):
+            # a second, complete run (own Control, own imain call) from inside the model callback of this one: overlapping runs in one process
+            nested_done[0] = True
+            out['nested_result'] = do_solve(req['nested'])
         if top[0]:
             # clasp 5.8.2 sometimes reports one and the same assignment twice (identical on EVERY program atom, shown or not; findings
             # F10/F14, DESIGN.md section 11): such exact repetitions are collapsed and counted, everything else is kept with multiplicity
@@ -281,6 +287,8 @@ def do_history(req):
     def one(op):
         if op[0] == 'transform':
             return do_transform({'texts': op[1]})
+        if op[0] == 'nested':      # ['nested', texts A, H, texts B, step of A at which B is run]
+            return do_solve({'texts': op[1], 'imax': op[2] + 1, 'istop': 'UNKNOWN', 'nested_at': op[4], 'nested': {'texts': op[3], 'imax': op[2] + 1, 'istop': 'UNKNOWN'}})
         return do_solve({'texts': op[1], 'imax': op[2] + 1, 'istop': 'UNKNOWN'})
     if req.get('threads', 1) <= 1:
         return {'status': 'ok', 'results': [one(op) for op in ops]}
